@@ -400,6 +400,11 @@ def gen_op(rng, cls, o, optn):
                     bb = (float(cur) - pos(rng), float(cur) + pos(rng), bb[2])
                 else:
                     bb = (float(cur) + 0.01 + pos(rng), float(cur) + 3.0 + pos(rng), bb[2])
+            if nm == "len_low" and bb[0] < 0:
+                # a negative lower truncation makes Python's float power return a complex number in var_factor
+                # (C pow gives NaN): outside the modelled space
+                lo = 0.0
+                bb = (lo, bb[1] if bb[1] > lo else lo + pos(rng), bb[2])
             kw.append((nm, bb))
         return dict(k=k, chk=bool(rng.random() < 0.65), kw=kw)
     return dict(k="bounds_prop", n=STD[int(rng.integers(4))], b=gen_bnd(rng))
@@ -849,7 +854,7 @@ def run(ctx):
     try:
         if drv is not None:
             tie_broken += witness_probes(ctx, drv)
-            per = 4 if ctx.tier == "quick" else 60
+            per = 3 if ctx.tier == "quick" else 60
             for rep in range(per):
                 for cls in CLASSES:
                     for kind, ll, tt in KINDS:
